@@ -17,7 +17,7 @@ from .. import compare, core, env, popcheck, popgen
 PROP = "C01"
 LEVEL = "exploration"
 RULE = (
-    "case = (date stratum >= 2015, valid population P, permutation pi, index labelling); "
+    "case = (date stratum >= 2015 or one of the sampled strata of 2005-2014 with the screened node universe, valid population P, permutation pi, index labelling, debug flag, lossless dtype variant); "
     "both orders are simulated for all ~320 DAG nodes and compared on p_id.  Non-trivial = pi "
     "changes the first row or flips the relative order of two persons linked by a "
     "partner/parent/child-benefit pointer; distinct = digest of (P, pi)."
